@@ -15,6 +15,7 @@
 (*   D.decls : Seq(decl), D.order : id -> index, D.input, D.output          *)
 (*   decl = [id, defect, marks]                                             *)
 (*     defect in {"none","notclass","nobase","noprocess","unannotated_some",*)
+(*                "unannotated_default" (no annotation but a default value),  *)
 (*                "unannotated_all","generic1","generic2","generic_partial" *)
 (*                (build_node rebinds only some generic inputs),            *)
 (*                "rec_noproto",                                            *)
@@ -88,6 +89,7 @@ ErrorOf(defect) ==
       [] defect = "nobase"           -> "IncorrectBaseClass"
       [] defect = "noprocess"        -> "RunMethodExpectedError"
       [] defect = "unannotated_some" -> "UndefinedParamAnnotation"
+      [] defect = "unannotated_default" -> "UndefinedParamAnnotation"      \* a default value does not replace the annotation
       [] defect = "unannotated_all"  -> "UndefinedAnnotation"
       [] defect = "generic1"         -> "NonRedefinedGenericTypeError"
       [] defect = "generic2"         -> "NonRedefinedGenericTypeError"
@@ -98,7 +100,7 @@ ErrorOf(defect) ==
 
 (* a traversal defect is detected when the node is visited; a recurrent defect when the node is the
    destination / start of a recurrent mark of some visited node *)
-TraversalDefects == {"notclass", "nobase", "noprocess", "unannotated_some", "unannotated_all", "generic1", "generic2",
+TraversalDefects == {"notclass", "nobase", "noprocess", "unannotated_some", "unannotated_default", "unannotated_all", "generic1", "generic2",
                      "generic_partial"}
 ExpectedVerdict(D) ==
     LET R == Reach(D)
